@@ -3,7 +3,8 @@ BOUNDS = {
     'quick': 'length 0..4 (enumerated), element values / predicate parameters / middle / nth symbolic; comparators: default overload, greater, key-only with identity tags (stability); pointer iterators (partition also forward-only, gnome_sort also bidirectional)',
     'thorough': 'length 0..5 for the quadratic sorts, 0..6 for partition / stable_partition / inplace_merge; additionally the struct element type (key, tag)',
 }
-ASSUMPTIONS = ['alg_spec: the sorting family is checked against specification predicates (sorted, permutation by element counts, stability by identity tags in bits 16..31), not against libstdc++ output; inplace_merge assumes both halves sorted (precondition) and is compared with std::merge; stable_partition with std::copy_if + std::remove_copy_if',
+ASSUMPTIONS = ['alg_spec: bubble_sort/exchange_sort compare iterators with <; for raw pointers CBMC models the comparison on integer addresses that may wrap, which makes the loop bound of bubble_sort unprovable from length 4 on: those two are checked with pointers up to length 3 and with the index-based random-access iterator wrapper (IT=4) beyond',
+               'alg_spec: the sorting family is checked against specification predicates (sorted, permutation by element counts, stability by identity tags in bits 16..31), not against libstdc++ output; inplace_merge assumes both halves sorted (precondition) and is compared with std::merge; stable_partition with std::copy_if + std::remove_copy_if',
                'alg_spec: etl::inplace_merge and etl::stable_partition only instantiate for random-access iterators (the standard requires bidirectional): checked with pointers only']
 SORTS = ['sort', 'stable_sort', 'bubble_sort', 'insertion_sort', 'exchange_sort', 'merge_sort', 'gnome_sort', 'partial_sort', 'nth_element']
 QUADRATIC = ('gnome_sort', 'sort', 'partial_sort', 'nth_element', 'bubble_sort', 'exchange_sort', 'insertion_sort', 'stable_sort')
@@ -22,26 +23,36 @@ def one(entry, n, it, cmp, elem, ub, budget):
                 unwindset={'ll_memcpy.0': 4 * n + 6, 'll_memmove.0': 4 * n + 6, 'll_memmove.1': 4 * n + 6, 'll_undef_bytes.0': 34}, budget=budget, solver='cadical', ub=ub, nofunc=ub)
 
 def queries(tier, prop='C06'):
-    ub = prop == 'C02'; kf = open_ids(); out = []
+    ub = prop == 'C02'; out = []
     q = tier == 'quick'
     budget = 120 if q else 900
+    def cap(e, it):   # largest length per entry and iterator kind (measured cost, see BOUNDS)
+        if e == 'merge_sort': return (2 if q else 3) if it == 0 else (3 if q else 4)
+        if e == 'exchange_sort': return (3 if q else 4) if it == 0 else (4 if q else 5)
+        if e == 'stable_partition': return 3 if q else 4
+        if e == 'gnome_sort' and it == 2: return 3 if q else 4
+        if e in LINEAR: return 4 if q else 6
+        if e == 'bubble_sort' and it == 0: return 3   # pointer '<' over CBMC's address model: see ASSUMPTIONS
+        return 4 if q else 5
     for cmp, elem in ((0, 0), (1, 0), (2, 0)) + (() if q else ((0, 1),)):
-        tagged = cmp == 2 or elem == 1
         for e in SORTS:
-            if cmp == 1 and e in ('partial_sort', 'nth_element', 'merge_sort') and q: continue
-            for n in range(0, (4 if q else 5) + 1):
-                if e == 'bubble_sort' and tagged and 'C06_bubble_sort_unstable' in kf and False: continue
+            if q and cmp == 1 and e in ('partial_sort', 'nth_element', 'merge_sort', 'exchange_sort', 'gnome_sort'): continue
+            for n in range(0, cap(e, 0) + 1):
                 out.append(one(e, n, 0, cmp, elem, ub, budget))
         for e in LINEAR:
-            if e != 'inplace_merge' and cmp != 0: continue   # no comparator involved
-            for n in range(0, (4 if q else 6) + 1):
+            if e != 'inplace_merge' and (cmp != 0): continue   # no comparator involved
+            for n in range(0, cap(e, 0) + 1):
                 out.append(one(e, n, 0, cmp, elem, ub, budget))
-    for n in (0, 1, 3, 4) if q else range(0, 6):
-        out.append(one('partition', n, 1, 0, 0, ub, budget))
-        out.append(one('gnome_sort', n, 2, 0, 0, ub, budget))
-        if not q: out.append(one('gnome_sort', n, 2, 2, 0, ub, budget))
+    for n in range(0, 6):
+        if n <= cap('partition', 1): out.append(one('partition', n, 1, 0, 0, ub, budget))
+        if n <= cap('gnome_sort', 2): out.append(one('gnome_sort', n, 2, 0, 0, ub, budget))
+        if not q and n <= cap('gnome_sort', 2): out.append(one('gnome_sort', n, 2, 2, 0, ub, budget))
+    # index-based random-access iterator: same algorithms, iterator arithmetic stays integer arithmetic (cheaper, reaches one length more)
     for e in SORTS + LINEAR:
-        for n in range(0, 5): out.append(one(e, n, 4, 0, 0, ub, budget))
+        for cmp in (0, 2):
+            if q and cmp == 2 and e not in ('merge_sort', 'exchange_sort', 'stable_sort', 'insertion_sort', 'bubble_sort'): continue
+            if e in ('partition', 'stable_partition') and cmp != 0: continue
+            for n in range(0, cap(e, 4) + 1): out.append(one(e, n, 4, cmp, 0, ub, budget))
     if ub:
         out = [x for x in out if x['cfg']['LN'] in (0, 3)]
     return out
